@@ -30,6 +30,9 @@ type noiseCase struct {
 	CorruptField int    `json:"corruptField"`
 	Bit          int    `json:"bit"` // bit inside the field (-1: random)
 	PwBit        int    `json:"pwBit"`
+	// Imp = 1 (KK): the initiator presents the paired client's public key
+	// but computes with a different private key
+	Imp int `json:"imp"`
 }
 
 func payloadOf(class string) []byte {
@@ -100,6 +103,9 @@ func runNoiseCase(c noiseCase, salt int64) map[string]any {
 		}
 		p.cliRemote = pick(c.IExpect)
 		p.srvRemote = pick(c.RExpect)
+		if c.Imp == 1 {
+			p.cliECDH = &impostorKey{pub: p.cliKey.PubKey(), priv: other}
+		}
 	}
 	a, b := mitm.NewPair()
 	a.ReadTimeout, b.ReadTimeout = 400*time.Millisecond, 400*time.Millisecond
@@ -270,6 +276,32 @@ func TestNoiseCases(t *testing.T) {
 					}
 				}
 			}
+		}
+	}
+	// the core every tier runs in full: the default version ranges and the
+	// expected peers, with every combination of version-byte rewrites on the
+	// acts of the pattern (XX three acts, KK two)
+	for _, pl := range []string{"small"} {
+		for v1 := -1; v1 <= 3; v1++ {
+			for v2 := -1; v2 <= 3; v2++ {
+				for v3 := -1; v3 <= 3; v3++ {
+					add(noiseCase{Pattern: "XX", CMin: 0, CMax: 2, SMin: 0, SMax: 2, PwEq: true,
+						IExpect: "none", RExpect: "none", Payload: pl,
+						VerSub: [3]int{v1, v2, v3}, CorruptField: 1, Bit: -1, PwBit: -1})
+				}
+				add(noiseCase{Pattern: "KK", CMin: 0, CMax: 2, SMin: 0, SMax: 2, PwEq: true,
+					IExpect: "sR", RExpect: "sI", Payload: pl,
+					VerSub: [3]int{v1, v2, -1}, CorruptField: 1, Bit: -1, PwBit: -1})
+			}
+		}
+	}
+	// KK with an impostor: every key expectation is right, the initiator just
+	// does not hold the private key of the public key it presents
+	for _, vs := range [][3]int{{-1, -1, -1}, {2, 2, -1}, {-1, 1, -1}} {
+		for _, pl := range payloads {
+			add(noiseCase{Pattern: "KK", CMin: 0, CMax: 2, SMin: 0, SMax: 2, PwEq: true,
+				IExpect: "sR", RExpect: "sI", Payload: pl, VerSub: vs, CorruptField: 1,
+				Bit: -1, PwBit: -1, Imp: 1})
 		}
 	}
 	// passphrases differing in every single bit of the 110 significant bits
